@@ -26,12 +26,12 @@ CONFIG = {
               'floors': {'evaluations': 8000, 'distinct_nontrivial': 1200, 'perm.tetrahedral': 200, 'perm.axis': 100,
                          'table.tetrahedron-keys': 24, 'table.alkene-keys': 8, 'rdkit.smiles-compared': 3000,
                          'rdkit.wedge-compared': 300, 'isomers.sets': 40, 'edits.label-dropped': 30, 'single-label.compared': 1500,
-                         'single-label.verdict-not-stereogenic': 300, 'single-label.spiro-pairs': 300, 'explicit-h-wedges.compared': 150}},
+                         'single-label.verdict-not-stereogenic': 300, 'single-label.spiro-pairs': 300, 'explicit-h-wedges.compared': 150, 'edits.dependent-labels-checked': 60}},
     'thorough': {'shards': 16, 'budget_s': 1800, 'n_corpus': 4200, 'k_spell': 80,
                  'floors': {'evaluations': 100000, 'distinct_nontrivial': 8000, 'perm.tetrahedral': 200, 'perm.axis': 100,
                             'table.tetrahedron-keys': 24, 'table.alkene-keys': 8, 'rdkit.smiles-compared': 50000,
                             'rdkit.wedge-compared': 3000, 'isomers.sets': 300, 'edits.label-dropped': 30, 'single-label.compared': 8000,
-                            'single-label.verdict-not-stereogenic': 1500, 'single-label.spiro-pairs': 300, 'explicit-h-wedges.compared': 600}},
+                            'single-label.verdict-not-stereogenic': 1500, 'single-label.spiro-pairs': 300, 'explicit-h-wedges.compared': 600, 'edits.dependent-labels-checked': 60}},
 }
 
 
@@ -400,6 +400,63 @@ def label_dropping(ctx):
         ctx.evaluations += 1
         if any(a.stereo is not None for _, a in m.atoms()) or m._cis_trans_count:
             ctx.violation('label-kept-on-non-stereogenic-centre', '%s read as %s' % (smi, m), {'smiles': smi})
+    # labels that depend on other labels (pseudo-asymmetric centres, double bonds between two stereo-different copies of one group)
+    # survive every operation that re-validates stereo without touching them
+    for smi in DEPENDENT:
+        try:
+            m0 = smiles(smi)
+        except Exception:
+            continue
+        want = T.stereo_descriptors(m0)
+        if len(want) < 2:
+            continue
+        for opname in ('explicify-implicify', 'canonicalize', 'kekule-thiele', 'remote-edit', 'transaction', 'clean_isotopes', 'standardize'):
+            m = m0.copy()
+            G._fix_slots(m)
+            try:
+                if opname == 'explicify-implicify':
+                    m.explicify_hydrogens()
+                    m.implicify_hydrogens()
+                elif opname == 'kekule-thiele':
+                    m.kekule()
+                    m.thiele()
+                elif opname == 'remote-edit':
+                    far = max(m._atoms)
+                    x = m.add_atom('C')
+                    m.add_bond(far, x, 1)
+                    m.delete_atom(x)
+                elif opname == 'transaction':
+                    with m:
+                        m.atom(max(m._atoms)).isotope = None
+                else:
+                    getattr(m, opname)()
+            except Exception as e:
+                ctx.violation('operation-raises-on-dependent-stereo/%s/%s' % (opname, type(e).__name__), '%s: %r' % (smi, e), {'smiles': smi})
+                continue
+            ctx.count('edits.dependent-labels-checked')
+            ctx.evaluations += 1
+            got = T.stereo_descriptors(m)
+            if got != want:
+                lost = [k for k in want if k not in got]
+                ctx.violation('dependent-label-lost-or-changed/%s' % opname, '%s: %d labels before, %d after; lost %s' % (smi, len(want), len(got), lost[:3]),
+                              {'smiles': smi})
+    # a stereo element that exists only through an isotope label disappears with the label (also on an object whose order was read)
+    for smi in ISOTOPE_INDUCED:
+        try:
+            m = smiles(smi)
+            str(m), m.atoms_order
+            m.clean_isotopes()
+            fresh = smiles(format(m, '!s'))
+        except Exception as e:
+            ctx.violation('operation-raises-on-dependent-stereo/clean_isotopes/%s' % type(e).__name__, '%s: %r' % (smi, e), {'smiles': smi})
+            continue
+        ctx.count('edits.label-dropped')
+        ctx.evaluations += 1
+        kept = sum(a.stereo is not None for _, a in m.atoms()) + m._cis_trans_count
+        possible = len(fresh.chiral_tetrahedrons) + len(fresh.chiral_cis_trans) + len(fresh.chiral_allenes)
+        if kept > possible:
+            ctx.violation('label-kept-on-non-stereogenic-centre', '%s after clean_isotopes(): %s keeps %d labels, %d stereogenic elements' % (smi, m, kept, possible),
+                          {'smiles': smi})
     # mirror images and E/Z pairs are never equal
     for a, b in [('C[C@H](F)Cl', 'C[C@@H](F)Cl'), ('F/C=C/Cl', 'F/C=C\\Cl'), ('CC(F)=[C@]=C(C)Cl', 'CC(F)=[C@@]=C(C)Cl'),
                  ('C[C@H]1CCCC[C@@H]1O', 'C[C@H]1CCCC[C@H]1O'), ('C/C=C=C=C/Cl', 'C/C=C=C=C\\Cl'), ('OC[C@@H](O)[C@H](O)C=O', 'OC[C@H](O)[C@H](O)C=O')]:
@@ -412,6 +469,11 @@ def label_dropping(ctx):
 ONE_CENTRE = ['C[C@H](F)Cl', 'C[C@@H](O)CC', 'N[C@@H](C)C(=O)O', 'O[C@H](c1ccccc1)C(F)(F)F', 'C[C@H]1CCCCO1', 'C[C@@H]1CCCC(=O)N1', 'CC[C@H](C)N', 'C[C@H](Br)c1ccccn1',
               'OC[C@H](O)C=O', 'C[C@H](S)C#N', 'C[C@@H](Cl)C(C)(C)C', 'F[C@H](Cl)Br', 'C[C@H]1CC1(C)C', 'O=C1CC[C@H](C)O1', 'C[C@@H](N)c1ccco1', 'CC(C)[C@H](O)C=C',
               'N[C@@H](CO)C(N)=O', 'C[C@H]1CCCN1C', 'C[C@H](O)C(=O)OC', 'CC[C@@H](C)CO', 'Cl[C@H](C)C=O', 'C[C@H]1COC(=O)O1', 'C[C@@H]1CCC(=O)C1', 'CS[C@H](C)N']
+DEPENDENT = ['C/C=C(/C=C/C)\\C=C/C', 'C/C=C(/[C@H](C)F)[C@@H](C)F', 'C[C@H](O)[C@@H](F)[C@H](O)C', 'O[C@H]1C[C@@H](O)C[C@H](F)C1', 'C/C=C/[C@H](O)/C=C\\C',
+             'C[C@H](O)[C@H](Cl)[C@H](O)C', 'C[C@H]1CC[C@@H](C)CC1', 'OC[C@H](O)[C@@H](O)[C@H](O)CO', 'C/C=C(\\C=C\\C)/C=C\\C', 'F[C@H](C)C(=C/C)/[C@@H](C)F',
+             'C[C@@H](N)[C@H](O)[C@@H](C)N', 'C/C=C/C(/C=C/C)=C(\\C)CC']
+ISOTOPE_INDUCED = ['C[C@H](O)[13CH3]', 'C/C=C(/C)[13CH3]', 'C[C@H]([18OH])O', 'C[C@@H]([13CH3])N', 'C[C@H]1CC[13CH2]1', 'C[C@](F)(O)[18OH]', 'C/C(/[13CH3])=C/C',
+                   '[13CH3][C@H](C)c1ccccc1', 'C[C@H]([2H])O']
 SPIRO_A = ['C1CC1', 'C1CCC1', 'C1CCCC1', 'C1CCCCC1', 'C1CCCCCC1', 'C1COC1', 'C1CCOCC1', 'C1CCNCC1', 'C1CSC1']     # symmetric about atom 1
 SPIRO_B = ['C1CCCO1', 'C1CCNC1', 'C1COCC1', 'C1CCCCO1', 'C1CCC(=O)N1', 'C1CC(C)CC1', 'C1CCOC1', 'C1CCCC(F)C1', 'C1C=CCC1', 'C1CCC1', 'C1CCCCC1']
 
